@@ -148,6 +148,18 @@ fn engine_rules(h: &Hist, out: &Outcome, o: &mut OracleOut) {
     let livelock = matches!(out.end, End::StepLimit) && out.counters.steps.saturating_sub(LAST_LOG_STEP.load(std::sync::atomic::Ordering::SeqCst)) > 50_000;
     let livelock_desc = format!("livelock: no event during the last {} scheduler steps; tasks {:?}", out.counters.steps.saturating_sub(LAST_LOG_STEP.load(std::sync::atomic::Ordering::SeqCst)), out.tasks);
     let end_view = if livelock { End::Deadlock(livelock_desc) } else { out.end.clone() };
+    if let End::Stuck(desc) | End::Deadlock(desc) = &end_view {
+        // a background worker that is blocked on a LOCK when the run dies will never work again:
+        // nothing is swept (C05), no wait() returns (C10), the cache is not "working" (C20)
+        for (name, st) in &out.tasks {
+            let worker = (name.starts_with("processor") || name.starts_with("policy_worker")) && !name.contains('#');
+            if worker && (st.starts_with("blocked:rwlock") || st.starts_with("blocked:mutex")) {
+                for prop in ["C05", "C10", "C20"] {
+                    o.violations.push(viol(prop, "R-worker-blocked-on-a-lock-forever", 0, &format!("{} blocked on a lock for ever", name), format!("{} is {} when the run ends: {}", name, st, desc)));
+                }
+            }
+        }
+    }
     match &end_view {
         End::Stuck(desc) | End::Deadlock(desc) => {
             // attribute to the operations that never returned
